@@ -71,7 +71,7 @@ deriving Repr, DecidableEq
 
 def init (g : Geom) : State := { pieces := List.replicate g.numPieces {} }
 
-inductive Err | ok | deleted | odd | beyond | mismatch
+inductive Err | ok | deleted | odd | beyond | mismatch | nomem
 deriving DecidableEq, Repr
 
 inductive Obs
@@ -89,7 +89,7 @@ inductive Obs
 deriving DecidableEq, Repr
 
 inductive Step
-  | addData (i begin : Nat) (blk : Bytes) (peer : Nat)
+  | addData (i begin : Nat) (blk : Bytes) (peer : Nat) (allocOk : Bool)  -- allocOk: outcome of alloc.Alloc, if called
   | finBegin (i : Nat)
   | hashRead (i : Nat)
   | finEnd (i : Nat) (h : Bytes)
@@ -159,6 +159,22 @@ def addData (g : Geom) (s : State) (i begin : Nat) (inp : Bytes) (peer : Nat) : 
         let peers' := if r.2.2.2 && peer ≠ max32 then addPeer p.peers peer else p.peers
         let p' := { p with data := some (buf.1, r.2.1), bitmap := r.2.2.1, peers := peers' }
         (setP s1 i p', .add r.1 (all r.2.2.1 (g.pieceChunks i)) .ok)
+
+/-- does this `AddData` reach `alloc.Alloc` (every test passed, the piece has no buffer yet)? -/
+def allocNeeded (g : Geom) (s : State) (i begin : Nat) : Bool :=
+  match s.pieces[i]? with
+  | none => false
+  | some p =>
+    decide (p.state = .incomplete) && !s.deleted && decide (begin % g.cs = 0) &&
+      decide (begin < g.pieceLength i) && p.data.isNone
+
+/-- `AddData` with the outcome of `alloc.Alloc` as an input (the environment decides whether
+    mmap succeeds): when the allocation is needed and fails, the error is returned and NOTHING
+    has changed (`count++` and the assignment of the buffer come after the error test). -/
+def addDataA (g : Geom) (s : State) (i begin : Nat) (inp : Bytes) (peer : Nat) (allocOk : Bool) :
+    State × Obs :=
+  if !allocOk && allocNeeded g s i begin then (s, .add 0 false .nomem)
+  else addData g s i begin inp peer
 
 /-- `Pieces.Finalise` from the first `Lock` to the first `Unlock` -/
 def finBegin (g : Geom) (s : State) (i : Nat) : State × Obs :=
@@ -287,7 +303,7 @@ def setTime (s : State) (i t : Nat) : State × Obs :=
   | some p => (setP s i { p with time := t }, .unit)
 
 def step (H : Bytes → Bytes) (g : Geom) (s : State) : Step → State × Obs
-  | .addData i b blk peer => addData g s i b blk peer
+  | .addData i b blk peer allocOk => addDataA g s i b blk peer allocOk
   | .finBegin i => finBegin g s i
   | .hashRead i => hashRead s i
   | .finEnd i h => finEnd H s i h
